@@ -41,29 +41,37 @@ func (g *graph) process(ctx context.Context, e *Event) (Status, error) {
 			// We would just process the node and then drop the status, and no
 			// other linked nodes would be processed.
 			case <-ctx.Done():
+				verifPoint("rng.stop", statusChan)
 				return false
 			default:
 			}
 
+			verifPoint("rng.visit", statusChan, pipeline.rootNode)
 			wg.Add(1)
 			g.doProcess(ctx, pipeline.rootNode, e, statusChan, &wg)
 			return true
 		})
+		verifPoint("rng.end", statusChan)
 		wg.Wait()
+		verifPoint("rng.waitdone", statusChan)
 		close(statusChan)
+		verifPoint("rng.close", statusChan)
 	}()
 	var status Status
 	var done bool
 	for !done {
 		select {
 		case <-ctx.Done():
+			verifPoint("coll.ctx", statusChan)
 			done = true
 		case s, ok := <-statusChan:
 			if ok {
+				verifPoint("coll.recv", statusChan, s)
 				status.Warnings = append(status.Warnings, s.Warnings...)
 				status.complete = append(status.complete, s.complete...)
 				status.completeSinks = append(status.completeSinks, s.completeSinks...)
 			} else {
+				verifPoint("coll.closed", statusChan)
 				done = true
 			}
 		}
@@ -83,13 +91,18 @@ func (g *graph) process(ctx context.Context, e *Event) (Status, error) {
 //     the sink node's ID
 func (g *graph) doProcess(ctx context.Context, node *linkedNode, e *Event, statusChan chan Status, wg *sync.WaitGroup) {
 	defer wg.Done()
+	defer verifPoint("dp.exit", statusChan, node)
 
 	// Process the current Node
+	verifPoint("dp.call", statusChan, node, e)
 	e, err := node.node.Process(ctx, e)
+	verifPoint("dp.ret", statusChan, node, e, err)
 	if err != nil {
 		select {
 		case <-ctx.Done():
+			verifPoint("dp.selctx", statusChan, node)
 		case statusChan <- Status{Warnings: []error{err}}:
+			verifPoint("dp.sent", statusChan, node)
 		}
 		return
 	}
@@ -103,7 +116,9 @@ func (g *graph) doProcess(ctx context.Context, node *linkedNode, e *Event, statu
 	if e == nil {
 		select {
 		case <-ctx.Done():
+			verifPoint("dp.selctx", statusChan, node)
 		case statusChan <- completeStatus:
+			verifPoint("dp.sent", statusChan, node)
 		}
 		return
 	}
@@ -119,11 +134,14 @@ func (g *graph) doProcess(ctx context.Context, node *linkedNode, e *Event, statu
 		for _, child := range node.next {
 			wg.Add(1)
 			go g.doProcess(ctx, child, e, statusChan, wg)
+			verifPoint("dp.spawn", statusChan, node, child)
 		}
 	} else {
 		select {
 		case <-ctx.Done():
+			verifPoint("dp.selctx", statusChan, node)
 		case statusChan <- completeStatus:
+			verifPoint("dp.sent", statusChan, node)
 		}
 	}
 }
